@@ -96,7 +96,7 @@ export const INNER_SIBLINGS = [
   '', 'const sq = (n) => n * 2;', 'const sq2 = (n) => (m) => n * m;', 'function innerFn() { return 1; }', '{ let q = 1; q++; }',
   'if (typeof t0 !== "undefined") { Math.max(1, 2); }', 'for (let i = 0; i < 1; i++) { Math.min(i, 1); }', 'try { Math.abs(1); } catch (e) { Math.abs(2); }',
   'const otherJsx = () => <B9>{g9()}</B9>;', 'const ob = { m() { return 1; }, a: () => 2 };', 'class In { f = 1; m() { return 2; } }',
-  '"marker";', '"use strict";', 'for (const q of [1]) Math.max(q, 1);', 'while (false) Math.abs(1);', 'do Math.abs(1); while (false);', 'for (const k in { a: 1 }) Math.abs(1);', 'for (let i = 0; i < 1; i++) Math.abs(i);', 'if (typeof t0 === "symbol") Math.abs(1); else Math.abs(2);', 'lbl2: for (const q of [1]) continue lbl2;',
+  'const innerTemp = <B9>{g9()}</B9>;', 'var innerCap = 1; innerCap = <B9>{innerCap}</B9>;', '"marker";', '"use strict";', 'for (const q of [1]) Math.max(q, 1);', 'while (false) Math.abs(1);', 'do Math.abs(1); while (false);', 'for (const k in { a: 1 }) Math.abs(1);', 'for (let i = 0; i < 1; i++) Math.abs(i);', 'if (typeof t0 === "symbol") Math.abs(1); else Math.abs(2);', 'lbl2: for (const q of [1]) continue lbl2;',
   'switch (1) { case 1: { break; } default: { break; } }', 'lbl: { break lbl; }', 'const nested = function () { return () => 3; };', 'let cnt = 0; cnt = cnt + 1;',
 ];
 
@@ -117,6 +117,10 @@ export const SIBLINGS = {
   bracelessWhile: 'var wn = 0; while (wn++ < 1) Math.abs(wn);',
   stringStmt: '"marker";',
   // ambient TypeScript blocks (these make the module TSX): they hold statement lists of their own but no code
+  tsTypeImportFragment: 'import type { Fragment } from "vue";',
+  tsInlineTypeImportFragment: 'import { type Fragment as FragT, type KeepAlive } from "vue";',
+  otherTransformOn: 'const sib7 = <div on={{ click: g1 }} nativeOn={{ focus: g1 }} />;',
+  reassignOuterElsewhere: 'function sib8() { x = <B9>{x}</B9>; return x; }',
   tsDeclModule: 'declare module "virtual:x" { export interface Y { a: 1 } export type Z = 2; }',
   tsDeclNamespace: 'declare namespace DN { interface I { a: 1 } type T = 2; }',
   tsDeclGlobal: 'declare global { interface Window { z: 1 } }',
